@@ -3,7 +3,7 @@ from __future__ import annotations
 
 import ast
 
-from ..engine.absval import Lin, Sym, AbsStr, Opaque, AObj, AClass, AFunc, INF
+from ..engine.absval import Lin, Sym, AbsStr, Opaque, AObj, AClass, AFunc, Token, INF
 from ..engine.absint import CannotDecide, Interp, explore, RaiseEx
 from ..engine.loader import AnalysisError, short
 from ..engine.stubs import log_of, recorder, stub, record_class, run_method
@@ -19,7 +19,7 @@ EXPLANATION = (
     "result); the pairwise consonance test (every unordered pair exactly once, first failure decides) and the "
     "binding of the four public predicates; the container protocol.")
 TRUSTED = ["CPython ast module", "mingus_static abstract evaluator", "C10 (Note ordering is by int()), C02 (pairwise predicates)"]
-NOT_DECIDED = "the invariant over arbitrary histories is argued by induction over the checked writers, not explored; 'less than an octave above' for the voicing"
+NOT_DECIDED = "the invariant over arbitrary histories is argued by induction over the checked writers, not explored"
 
 NC, NOTE = "mingus.containers.note_container", "mingus.containers.note"
 ALLOWED_WRITERS = {"empty", "add_note", "remove_note", "remove_duplicate_notes", "sort", "__setitem__"}
@@ -74,6 +74,7 @@ def run(ctx):
     rule_writers(ctx, ci)
     rule_add_note(ctx, ci)
     rule_octave_inference(ctx, ci)
+    rule_voicing(ctx, ci)
     rule_dispatch(ctx, ci)
     rule_remove(ctx, ci)
     rule_constructors(ctx, ci)
@@ -188,7 +189,6 @@ def rule_octave_inference(ctx, ci):
     cases = {
         "empty": (lambda: [AObj(ci, {"notes": []}, name="c"), "E"], None),
         "explicit": (lambda: [AObj(ci, {"notes": [note_stub(repo, "top", octave=Lin.of(top_oct))]}, name="c"), "E", 7], None),
-        "infer": (lambda: [AObj(ci, {"notes": [note_stub(repo, "low", octave=2), note_stub(repo, "top", octave=Lin.of(top_oct))]}, name="c"), "E"], None),
     }
     for label, (mk, _) in cases.items():
         try:
@@ -210,31 +210,63 @@ def rule_octave_inference(ctx, ci):
                 ok, why = False, "first note gets octave %r instead of 4" % (octv,)
             elif label == "explicit" and octv != 7:
                 ok, why = False, "explicit octave 7 stored as %r" % (octv,)
-            elif label == "infer":
-                lt = [v for lab, v in p.trace if lab.startswith("lt(") or lab.startswith("gt(") or lab.startswith("ge(") or lab.startswith("le(")]
-                below = None
-                for lab, v in p.trace:
-                    if lab.startswith("lt(made"):
-                        below = v
-                    elif lab.startswith("ge(made"):
-                        below = not v
-                    elif lab.startswith("gt(top") :
-                        below = v
-                    elif lab.startswith("le(top"):
-                        below = not v
-                want = Lin.of(top_oct) + (1 if below else 0)
-                probe = [e for e in made if e[3] is not stored[0]]
-                if below is None:
-                    ok, why = False, "the candidate is not compared with the top note (%s)" % (p.trace,)
-                elif Lin.of(octv) is None or Lin.of(octv) != want:
-                    ok, why = False, "candidate %s the top note: stored in octave %s, expected %s" % ("below" if below else "not below", octv, want)
-                elif any(Lin.of(e[1][1]) != Lin.of(top_oct) for e in probe if len(e[1]) > 1):
-                    ok, why = False, "the probe note is not built in the top note's octave"
             if stored[0].attrs["name"] != "E":
                 ok, why = False, "name stored as %r" % (stored[0].attrs["name"],)
             if not ok:
                 break
         ctx.check(ok, R, "octave[%s]" % label, fi.where(), "add_note('E') [%s]" % label, why)
+
+
+def rule_voicing(ctx, ci):
+    """Bare names are voiced upward: with P(name) = natural + sharps - flats (not reduced: B# is 12, Cb is -1) and the
+    pitch number 12*octave + P(name), a bare name added to a non-empty container lands at or above the top note and
+    less than an octave above it.  P of both names and the top octave are symbolic (names up to double accidentals:
+    P in -2..13), the comparison operators are the real ones."""
+    R = "R-C12-2"
+    repo = ctx.repo
+    fi = repo.find_method(ci, "add_note")
+    nci = repo.mod(NOTE).cls("Note")
+    top_oct = Sym("top_octave", 1, INF)
+    p_top, p_new = Sym("P(top name)", -2, 13), Sym("P(new name)", -2, 13)
+    new_name = "N"  # a bare name; its pitch P(new name) is the symbol above
+
+    def ctor(it, args, kwargs, node):
+        oc = Lin.of(args[1] if len(args) > 1 else kwargs.get("octave", 4))
+        if args[0] != new_name or oc is None:
+            raise CannotDecide("Note(%r, %r)" % (args[0], args[1:] ))
+        return AObj(nci, {"name": args[0], "octave": oc, "pitch": oc.scale(12) + Lin.of(p_new)}, name="made")
+    summ = {NOTE + ".Note": ctor, NOTE + ".Note.__int__": lambda it, a, k, n: a[0].attrs["pitch"]}
+
+    def mk():
+        low = AObj(nci, {"name": Token("low name"), "octave": 0, "pitch": Lin.of(Sym("low pitch", 0, 9))}, name="low")
+        top = AObj(nci, {"name": Token("top name"), "octave": Lin.of(top_oct), "pitch": Lin.of(top_oct).scale(12) + Lin.of(p_top)}, name="top")
+        return [AObj(ci, {"notes": [low, top]}, name="c"), new_name]
+    try:
+        paths = run_method(repo, fi, mk, summaries=summ, kwargs={})
+    except CannotDecide as e:
+        raise AnalysisError("add_note(<bare name>) voicing: %s" % e)
+    ok, why, stored_paths = bool(paths), "no outcome", 0
+    for p in paths:
+        c = p.interp.args[0]
+        stored = [x for x in c.attrs["notes"] if getattr(x, "name", "") == "made"]
+        if p.kind != "return" or len(stored) > 1:
+            ok, why = False, "%s %r, stored %d new notes" % (p.kind, p.value, len(stored))
+            break
+        if not stored:
+            continue  # equal in pitch to a stored note: not added
+        stored_paths += 1
+        top = [x for x in c.attrs["notes"] if getattr(x, "name", "") == "top"][0]
+        d = p.interp.resolve(Lin.of(stored[0].attrs["pitch"]) - Lin.of(top.attrs["pitch"]))
+        lo, hi = p.interp.lin_interval(d)
+        if lo < 0 or hi > 11:
+            plo, phi = p.interp.lin_interval(Lin.of(p_new) - Lin.of(p_top))
+            ok, why = False, ("a bare name whose own pitch differs from the top note's by %s..%s (e.g. %s) is voiced %s..%s semitones above the top note: "
+                              "it must land at or above it and less than an octave above" % (
+                                  plo, phi, "B# after C" if phi >= 12 else "Cb after B#" if plo < -12 else "a wrapping spelling", lo, hi))
+            break
+    if ok and stored_paths < 1:
+        ok, why = False, "the bare name is never stored"
+    ctx.check(ok, R, "voicing", fi.where(), "add_note(<bare name>) on a non-empty container", why)
 
 
 def rule_dispatch(ctx, ci):
